@@ -1,5 +1,5 @@
 (** * Facts decided on the generated tables (re-checked against the source on every run). *)
-From PQL Require Import Model.Compile Model.Walk Gen.Shared.
+From PQL Require Import Model.Compile Model.Walk.
 From Coq Require Import Lia String.
 Local Open Scope list_scope.
 Local Notation length := List.length (only parsing).
@@ -156,15 +156,6 @@ Lemma span_table_well_typed :
     | SP_Slice _, Some (FT_Slice _) => true
     | _, _ => false
     end) (span_parts k)) all_nkinds = true.
-Proof. vm_compute. reflexivity. Qed.
-
-(** ** shared state: the only write to a package-level variable is the once-only
-    initialisation of knownFunctions.m *)
-Definition site_is_once_init (w : write_site) : bool :=
-  str_eqb (ws_pkg w) (L "pql") && str_eqb (ws_var w) (L "knownFunctions")
-  && str_eqb (ws_func w) (L "initKnownFunctions") && str_eqb (ws_how w) (L "assign knownFunctions.m").
-
-Lemma shared_writes_only_once_init : forallb site_is_once_init write_sites = true.
 Proof. vm_compute. reflexivity. Qed.
 
 (** ** join kinds: the parser's table and the compiler's cases agree *)
